@@ -173,6 +173,15 @@ def one_round(rng, nthreads, nreq):
                         node = node.target
                     name = node.name
                     ei = ej
+                    if len(results[t]) % 2 == 0:
+                        # ... and once more from the same first materialization (another unnamed
+                        # materialization of a transfer of the same named source)
+                        results[t].append((name, prefix, ei, "matx2"))
+                        m3 = m1.transferred_to(engines[ej]).materialized(name_prefix=prefix)
+                        node = m3
+                        while not isinstance(node, R.Materialization):
+                            node = node.target
+                        name = node.name
                 elif route == "leaf" or route == "matx":
                     name = R.LeafRelation(e, frozenset({a}), iteration.RowSequence([]), name="", name_prefix=prefix).name
                 else:
